@@ -179,7 +179,16 @@ def run_impl(task, worker: str, flags: str, sandbox: Path):
 
 
 def classify(m: dict):
-    """JSON-LD message of pydra -> (kind, fields); times stay strings (ISO format sorts chronologically)"""
+    """JSON-LD message of pydra -> (kind, fields); times stay strings (ISO format sorts chronologically).
+    Whatever the kind, `opens` / `closes` say which activity the record starts / ends when it is read the way a consumer
+    of the provenance log reads it: by its `@id` and the presence of `startedAtTime` / `endedAtTime`."""
+    k, f = _classify(m)
+    f["opens"] = m.get("@id") if "startedAtTime" in m else None
+    f["closes"] = m.get("@id") if "endedAtTime" in m else None
+    return (k, f)
+
+
+def _classify(m: dict):
     t = m.get("@type")
     if t == "job" and "startedAtTime" in m:
         return ("start", {"aid": m["@id"], "t": m["startedAtTime"], "has_time": bool(m["startedAtTime"])})
@@ -222,7 +231,21 @@ def from_model(trace):
             out.append(("end", {"aid": m[1], "errored": m[2], "t": t}))
         else:
             raise ValueError(m)
+        k2, f2 = out[-1]
+        f2["opens"] = m[1] if k2 in ("start", "monStart") else None
+        f2["closes"] = m[1] if k2 in ("end", "monEnd") else None
     return out
+
+
+def all_activities(recs):
+    """{activity id: [number of records opening it, number of records closing it]} over ALL records, job and monitor"""
+    acts = {}
+    for _, f in recs:
+        if f.get("opens") is not None:
+            acts.setdefault(f["opens"], [0, 0])[0] += 1
+        if f.get("closes") is not None:
+            acts.setdefault(f["closes"], [0, 0])[1] += 1
+    return acts
 
 
 def canon(recs):
@@ -301,7 +324,12 @@ def canon(recs):
         return node
 
     roots = sorted((build(x) for x in kids.get(None, [])), key=lambda d: json.dumps(d, sort_keys=True))
-    return {"roots": roots, "stray": sorted(stray, key=json.dumps)}
+    return {
+        "roots": roots,
+        "stray": sorted(stray, key=json.dumps),
+        # every activity id (job or monitor) with its number of start and end records, ids abstracted away
+        "activities": sorted(all_activities(recs).values()),
+    }
 
 
 def spec_check(recs, forest, stored, resource: bool):
@@ -353,6 +381,15 @@ def spec_check(recs, forest, stored, resource: bool):
     for l, fl in seen.items():
         if sorted(fl) != sorted(by_label.get(l, [])) and len(fl) == len(by_label.get(l, [])):
             why.append(f"errored flag of activity {l!r} does not match its job's result")
+    # every activity of the log, job or monitor, grouped by @id: exactly one start and one end record for the same id
+    acts = all_activities(recs)
+    for aid, (n_open, n_close) in acts.items():
+        if n_open != 1 or n_close != 1:
+            kind = "job" if aid in starts else "monitor/other"
+            why.append(f"{kind} activity has {n_open} start and {n_close} end records under its @id")
+    want_acts = len(expected) * (2 if resource else 1)
+    if len(acts) != want_acts:
+        why.append(f"{len(acts)} activity ids in the log, {want_acts} expected ({len(expected)} jobs{' + their monitors' if resource else ''})")
     if resource:
         mons = [f for k, f in recs if k == "monStart"]
         if len(mons) != len(expected) or any(m["aid"] not in starts for m in mons):
